@@ -206,6 +206,56 @@ def shrink(line):
         if c and len(O.closure_strs(c)) == 4 ** n - 1:
             yield " ".join([t[0], ",".join(c), t[2]])
 
+# ---- what the search starts from: get_independents() of the input.  A generator lost there (recorded as dependent although it
+# is needed) is lost for good, whatever the search does.  High volume at n = 4, 5 on inputs that make the reduction cut its long
+# leg and re-queue vertices (a Jordan-Wigner chain plus extra strings) and on random sets.
+def chain_plus(rng, n):
+    chain = []
+    for i in range(n):
+        chain.append("I" * i + "Z" + "I" * (n - 1 - i))
+        if i + 1 < n:
+            chain.append("I" * i + "XX" + "I" * (n - 2 - i))
+    gs = chain + [G.rs(rng, n) for _ in range(rng.randint(2, 5))]
+    perm = list(range(n)); rng.shuffle(perm)
+    rel = [dict(zip("IXYZ", "I" + "".join(rng.sample("XYZ", 3)))) for _ in range(n)]
+    out = []
+    for g in gs:
+        t = ["I"] * n
+        for q, ch in enumerate(g):
+            t[perm[q]] = rel[q][ch]
+        out.append("".join(t))
+    out = [g for g in dict.fromkeys(out) if g != "I" * n]
+    if rng.random() < 0.5:
+        out = G.obfuscate(rng, out, rng.randint(1, 10))
+    rng.shuffle(out)
+    return out
+
+def indep_handle(line):
+    import impl_collection as IC
+    try:
+        gs = lst(line.split(" ")[1])
+        c = IC.mk(gs)
+        ind = [str(p) for p in c.get_independents()]
+        return ",".join(ind) or "-"
+    except Exception as e:
+        return exc_name(e)
+
+def indep_oracle(line, out):
+    gs = O.pad(lst(line.split(" ")[1]))
+    if out.startswith("!"):
+        return f"get_independents() raised {out} for {','.join(gs)}"
+    ind = lst(out)
+    if any(x not in gs for x in ind):
+        return f"get_independents() = {ind} is not a selection of the members {gs}"
+    a = O.closure_strs(gs)
+    if len(a) != 4 ** len(gs[0]) - 1:
+        return None          # not su(2^n): outside C20 (for other algebras a string recorded as dependent need not be removable)
+    b = O.closure_strs(ind)
+    if a != b:
+        return (f"get_independents() of {','.join(gs)} keeps {len(ind)} strings that generate {len(b)} strings, the collection generates {len(a)}: "
+                f"a needed generator was recorded as dependent")
+    return None
+
 def build_streams(rng, tier):
     th = tier == "thorough"
     lines = []
@@ -232,6 +282,10 @@ def build_streams(rng, tier):
         Stream("corpus", corpus_lines(PID), IO.handle, **kw),
         Stream("su(2^n)-generating-sets", lines, IO.handle, **kw),
         Stream("seeds-of-the-tie-breaking", seeds, IO.handle, **kw),
+        Stream("independents-the-search-starts-from", [G.line_of("indep", chain_plus(rng, rng.choice([4, 4, 5])) if rng.random() < 0.7 else
+                                                       [G.rs(rng, 4) for _ in range(rng.randint(9, 13))]) for _ in range(12000 if th else 900)],
+               indep_handle, indep_oracle, model=False, tag=lambda l, o: "indep:" + ("err" if o.startswith("!") else "set"),
+               nontrivial=lambda l, o: len(O.closure_strs(O.pad(lst(l.split(" ")[1])))) == 4 ** len(O.pad(lst(l.split(" ")[1]))[0]) - 1),
         Stream("inputs-already-at-the-target", boundary, IO.handle, **kw),
         Stream("classified-then-member-edited-in-place", [gen_member_edit(rng) for _ in range(1500 if th else 400)], optimise_after_member_edit,
                oracle=oracle_after_member_edit, model=False, tag=lambda l, o: "member-edit"),
@@ -253,6 +307,10 @@ def main(tier):
 
 def replay(path):
     r = json.load(open(path)); line = r.get("line")
+    if line.startswith("indep "):
+        out = indep_handle(line); why = indep_oracle(line, out)
+        print("line:", line); print("implementation:", out); print("oracle:", why or "holds")
+        return 1 if why else 0
     out = IO.handle(line) if not line.startswith("explore") else run_model([line])[0]
     why = (explore_oracle if line.startswith("explore") else batch_oracle)([line], [out])[0] if not line.startswith("edges") else edges_oracle(line, out)
     print("line:", line); print("implementation:", out); print("model:", run_model([line])[0]); print("oracle:", why or "holds")
